@@ -31,50 +31,50 @@ Variable O : oracle.
 
 (* CSV migration, crash: the strongest statement that holds *)
 Lemma csv_crash_partial :
-  forall (c : cmd) (s : option string) (c0 : string) (bk r : option string) (d0 : string) (k n : nat),
+  forall (c : cmd) (s : option string) (c0 : string) (bk r : option string) (d0 : string) (k j n : nat),
     csv_pre O c s c0 r -> yaml_laws O s c0 ->
     let f0 := csv_budget s c0 bk r d0 in
-    let f1 := crash (mig_ops O c f0 []) k n f0 in
+    let f1 := crash (mig_ops O c f0 []) k j n f0 in
     let f2 := rerun O c f1 [] in
     (bk = None -> r = None -> content_kept f0 f1 f2) /\
     (csv_crash_guard O s k = true -> csv_rules_safe O f1 f2 c0).
 Proof.
-  intros c s c0 bk r d0 k n Hpre Hlaws f0 f1 f2. split.
+  intros c s c0 bk r d0 k j n Hpre Hlaws f0 f1 f2. split.
   - intros -> ->. destruct c.
-    + exact (csv_no_loss_up O s c0 d0 k n _ _ _ eq_refl eq_refl eq_refl).
-    + exact (csv_no_loss_init O s c0 d0 k n _ _ _ eq_refl eq_refl eq_refl).
-  - intros Hg. exact (csv_crash_rules_safe O c s c0 bk r d0 k n _ _ _ Hpre Hlaws Hg eq_refl eq_refl eq_refl).
+    + exact (csv_no_loss_up O s c0 d0 k j n _ _ _ eq_refl eq_refl eq_refl).
+    + exact (csv_no_loss_init O s c0 d0 k j n _ _ _ eq_refl eq_refl eq_refl).
+  - intros Hg. exact (csv_crash_rules_safe O c s c0 bk r d0 k j n _ _ _ Hpre Hlaws Hg eq_refl eq_refl eq_refl).
 Qed.
 
 Lemma csv_fault_partial :
-  forall (c : cmd) (s : option string) (c0 : string) (bk r : option string) (d0 : string) (k n : nat),
+  forall (c : cmd) (s : option string) (c0 : string) (bk r : option string) (d0 : string) (k j n : nat),
     csv_pre O c s c0 r -> yaml_laws O s c0 ->
     let f0 := csv_budget s c0 bk r d0 in
     k < length (mig_ops O c f0 []) ->
-    let g := crash (mig_ops O c f0 []) k n f0 in
-    let f1 := after_fault O c f0 [] k n in
+    let g := crash (mig_ops O c f0 []) k j n f0 in
+    let f1 := after_fault O c f0 [] k j n in
     let f2 := rerun O c f1 [] in
     (bk = None -> r = None -> content_kept f0 f1 f2) /\
     (csv_fault_guard O c s k = true -> csv_rules_safe O f1 f2 c0 /\ inrun_safe O c g c0).
 Proof.
-  intros c s c0 bk r d0 k n Hpre Hlaws f0 _ g f1 f2. split.
+  intros c s c0 bk r d0 k j n Hpre Hlaws f0 _ g f1 f2. split.
   - intros -> ->. destruct c.
-    + exact (csv_no_loss_up O s c0 d0 k n _ _ _ eq_refl eq_refl eq_refl).
-    + exact (csv_no_loss_init_fault O s c0 d0 k n _ _ _ eq_refl eq_refl eq_refl).
-  - intros Hg. exact (csv_fault_rules_safe O c s c0 bk r d0 k n _ _ _ _ Hpre Hlaws Hg eq_refl eq_refl eq_refl eq_refl).
+    + exact (csv_no_loss_up O s c0 d0 k j n _ _ _ eq_refl eq_refl eq_refl).
+    + exact (csv_no_loss_init_fault O s c0 d0 k j n _ _ _ eq_refl eq_refl eq_refl).
+  - intros Hg. exact (csv_fault_rules_safe O c s c0 bk r d0 k j n _ _ _ _ Hpre Hlaws Hg eq_refl eq_refl eq_refl eq_refl).
 Qed.
 
 Lemma layout_crash_partial :
-  forall (s0 r0 : string) (d rep : option string) (t : bool) (tc : option (string * string)) (td : bool) (k n : nat),
+  forall (s0 r0 : string) (d rep : option string) (t : bool) (tc : option (string * string)) (td : bool) (k j n : nat),
     mf O s0 = MfKey [Aconfig; Arules] ->
     let f0 := layout_budget s0 r0 d rep t tc td in
-    let f1 := crash (update_ops O f0) k n f0 in
+    let f1 := crash (update_ops O f0) k j n f0 in
     let f2 := update_rerun O f1 in
     content_kept f0 f1 f2 /\ (layout_guard d tc td k = true -> layout_rules_safe O f0 f1 f2 r0).
 Proof.
-  intros s0 r0 d rep t tc td k n Hmf f0 f1 f2. split.
-  - exact (layout_no_loss O s0 r0 d rep t tc td k n _ _ _ eq_refl eq_refl eq_refl).
-  - intros Hg. exact (layout_crash_rules_safe O s0 r0 d rep t tc td k n _ _ _ Hmf Hg eq_refl eq_refl eq_refl).
+  intros s0 r0 d rep t tc td k j n Hmf f0 f1 f2. split.
+  - exact (layout_no_loss O s0 r0 d rep t tc td k j n _ _ _ eq_refl eq_refl eq_refl).
+  - intros Hg. exact (layout_crash_rules_safe O s0 r0 d rep t tc td k j n _ _ _ Hmf Hg eq_refl eq_refl eq_refl).
 Qed.
 
 End Pack.
@@ -85,45 +85,45 @@ Definition layout_pre (O : oracle) (s0 : string) (tc : option (string * string))
   match tc with Some (s1, _) => mf O s1 = MfKey [Aconfig; Arules] | None => True end.
 
 Definition csv_crash_statement : Prop :=
-  forall (O : oracle) (c : cmd) (s : option string) (c0 : string) (bk r : option string) (d0 : string) (k n : nat),
+  forall (O : oracle) (c : cmd) (s : option string) (c0 : string) (bk r : option string) (d0 : string) (k j n : nat),
     csv_pre O c s c0 r -> yaml_laws O s c0 ->
     let f0 := csv_budget s c0 bk r d0 in
-    let f1 := crash (mig_ops O c f0 []) k n f0 in
+    let f1 := crash (mig_ops O c f0 []) k j n f0 in
     let f2 := rerun O c f1 [] in
     csv_safe O f0 f1 f2 c0.
 
 Definition csv_fault_statement : Prop :=
-  forall (O : oracle) (c : cmd) (s : option string) (c0 : string) (bk r : option string) (d0 : string) (k n : nat),
+  forall (O : oracle) (c : cmd) (s : option string) (c0 : string) (bk r : option string) (d0 : string) (k j n : nat),
     csv_pre O c s c0 r -> yaml_laws O s c0 ->
     let f0 := csv_budget s c0 bk r d0 in
     k < length (mig_ops O c f0 []) ->
-    let g := crash (mig_ops O c f0 []) k n f0 in
-    let f1 := after_fault O c f0 [] k n in
+    let g := crash (mig_ops O c f0 []) k j n f0 in
+    let f1 := after_fault O c f0 [] k j n in
     let f2 := rerun O c f1 [] in
     csv_safe O f0 f1 f2 c0 /\ inrun_safe O c g c0.
 
 Definition layout_crash_statement : Prop :=
   forall (O : oracle) (s0 r0 : string) (d rep : option string) (t : bool) (tc : option (string * string)) (td : bool)
-         (k n : nat),
+         (k j n : nat),
     layout_pre O s0 tc ->
     let f0 := layout_budget s0 r0 d rep t tc td in
-    let f1 := crash (update_ops O f0) k n f0 in
+    let f1 := crash (update_ops O f0) k j n f0 in
     let f2 := update_rerun O f1 in
     layout_safe O f0 f1 f2 r0.
 
 Definition layout_fault_statement : Prop :=
   forall (O : oracle) (s0 r0 : string) (d rep : option string) (t : bool) (tc : option (string * string)) (td : bool)
-         (k n : nat),
+         (k j n : nat),
     layout_pre O s0 tc ->
     let f0 := layout_budget s0 r0 d rep t tc td in
     k < length (update_ops O f0) ->
-    let f1 := crash (update_ops O f0) k n f0 in
+    let f1 := crash (update_ops O f0) k j n f0 in
     let f2 := update_rerun O f1 in
     layout_safe O f0 f1 f2 r0.
 
 Lemma csv_crash_refuted : ~ csv_crash_statement.
 Proof.
-  intro H. specialize (H Ow Up (Some "s") "c" None None "d" 4 0).
+  intro H. specialize (H Ow Up (Some "s") "c" None None "d" 4 0 0).
   assert (P1 : csv_pre Ow Up (Some "s") "c" None) by reflexivity.
   assert (P2 : yaml_laws Ow (Some "s") "c") by (vm_compute; repeat split; intros; reflexivity).
   specialize (H P1 P2). vm_compute in H.
@@ -132,7 +132,7 @@ Qed.
 
 Lemma csv_fault_refuted : ~ csv_fault_statement.
 Proof.
-  intro H. specialize (H Ow Up (Some "s") "c" None None "d" 4 0).
+  intro H. specialize (H Ow Up (Some "s") "c" None None "d" 4 0 0).
   assert (P1 : csv_pre Ow Up (Some "s") "c" None) by reflexivity.
   assert (P2 : yaml_laws Ow (Some "s") "c") by (vm_compute; repeat split; intros; reflexivity).
   specialize (H P1 P2). vm_compute in H.
@@ -142,7 +142,7 @@ Qed.
 
 Lemma layout_crash_refuted : ~ layout_crash_statement.
 Proof.
-  intro H. specialize (H Ow "n" "r" (Some "d") None false None false 2 0).
+  intro H. specialize (H Ow "n" "r" (Some "d") None false None false 2 0 0).
   assert (P : layout_pre Ow "n" None) by (split; reflexivity).
   specialize (H P). vm_compute in H.
   destruct H as (_ & [X|X] & _); discriminate X.
@@ -150,7 +150,7 @@ Qed.
 
 Lemma layout_fault_refuted : ~ layout_fault_statement.
 Proof.
-  intro H. specialize (H Ow "n" "r" (Some "d") None false None false 2 0).
+  intro H. specialize (H Ow "n" "r" (Some "d") None false None false 2 0 0).
   assert (P : layout_pre Ow "n" None) by (split; reflexivity).
   specialize (H P). vm_compute in H.
   assert (L : 2 < 6) by (repeat constructor).
@@ -159,37 +159,37 @@ Qed.
 
 Lemma layout_fault_partial :
   forall (O : oracle) (s0 r0 : string) (d rep : option string) (t : bool) (tc : option (string * string)) (td : bool)
-         (k n : nat),
+         (k j n : nat),
     mf O s0 = MfKey [Aconfig; Arules] ->
     let f0 := layout_budget s0 r0 d rep t tc td in
     k < length (update_ops O f0) ->
-    let f1 := crash (update_ops O f0) k n f0 in
+    let f1 := crash (update_ops O f0) k j n f0 in
     let f2 := update_rerun O f1 in
     content_kept f0 f1 f2 /\ (layout_guard d tc td k = true -> layout_rules_safe O f0 f1 f2 r0).
 Proof.
-  intros O s0 r0 d rep t tc td k n Hmf f0 _. exact (layout_crash_partial O s0 r0 d rep t tc td k n Hmf).
+  intros O s0 r0 d rep t tc td k j n Hmf f0 _. exact (layout_crash_partial O s0 r0 d rep t tc td k j n Hmf).
 Qed.
 
 (* one closed witness per further defect *)
 Lemma w_backup_overwritten :
   let f0 := csv_budget (Some "s") "c" (Some "b") None "d" in
-  no_loss f0 (crash (mig_ops Ow Up f0 []) 4 0 f0) = false.
+  no_loss f0 (crash (mig_ops Ow Up f0 []) 4 0 0 f0) = false.
 Proof. vm_compute. reflexivity. Qed.
 
 Lemma w_rules_overwritten :
   let f0 := csv_budget (Some "s") "c" None (Some "r") "d" in
-  no_loss f0 (crash (mig_ops Ow Up f0 []) 1 0 f0) = false.
+  no_loss f0 (crash (mig_ops Ow Up f0 []) 1 0 0 f0) = false.
 Proof. vm_compute. reflexivity. Qed.
 
 Lemma w_failed_run_uses_moved_csv :
   let f0 := csv_budget (Some "s") "c" None None "d" in
-  let g := crash (mig_ops Ow Up f0 []) 7 0 f0 in
+  let g := crash (mig_ops Ow Up f0 []) 7 2 0 f0 in
   stranded Ow "c" (up_inrun_after_fault g cd0) g = true /\ resolve Ow g cd0 = INew "K".
 Proof. vm_compute. split; reflexivity. Qed.
 
 Lemma w_layout_nests :
   let f0 := layout_budget "n" "r" None None true (Some ("m", "q")) false in
-  let f1 := crash (update_ops Ow f0) 9 0 f0 in
+  let f1 := crash (update_ops Ow f0) 9 0 0 f0 in
   fst (resolve_layout Ow f0) = INew "r" /\ fst (resolve_layout Ow f1) = INew "q" /\
   content_at f1 [Atally; Aconfig; Aconfig; Arules] = Some "r".
 Proof. vm_compute. repeat split; reflexivity. Qed.
